@@ -100,8 +100,8 @@ Print Assumptions C19_bp_self_loop_refuted.
 (* ---- stepping (model/DapStep.v: TestRunner::step_over / step_out on the uninterrupted run, indexed by instruction).
    The step commands only ever call execute_instruction, so they move along the uninterrupted run: a command started at
    index i leaves the machine at an index j >= i having executed exactly the instructions i .. j-1 of that run. *)
-Theorem C19_step_sequence : forall (pcT spT opT retT : Z -> Z) (fuel : nat) (i j : Z),
-  (step_over pcT opT fuel i = Some j \/ step_out pcT spT opT retT fuel i = Some j \/ exec_in opT i = j) -> i <= j.
+Theorem C19_step_sequence : forall (pcT spT opT : Z -> Z) (fuel : nat) (i j : Z),
+  (step_over pcT opT fuel i = Some j \/ step_out spT opT fuel i = Some j \/ exec_in opT i = j) -> i <= j.
 Proof. exact step_forward. Qed.
 Print Assumptions C19_step_sequence.
 
@@ -123,9 +123,31 @@ Theorem C19_next_plain : forall (pcT opT : Z -> Z) (fuel : nat) (i : Z),
 Proof. exact next_plain. Qed.
 Print Assumptions C19_next_plain.
 
-(* `stepOut` lands on the instruction after the call of the current frame when the two bytes above the stack pointer
-   are that call's return address (the subroutine has nothing of its own on the stack) *)
-Theorem C19_stepout_clean : forall (pcT spT opT retT : Z -> Z) (fuel : nat) (c i j : Z),
+(* `stepOut` (current runner, after fix 7e8ab84: nested calls are counted) lands where the subroutine the machine is in
+   has just returned -- the first later index below the current call depth -- whatever the subroutine pushed and however
+   it recursed; with c the call of i's frame that is the index the call returns at, and (given the CPU returns calls to
+   the instruction after them) its pc is the instruction after the call. *)
+Theorem C19_stepout_returns : forall (spT opT : Z -> Z) (fuel : nat) (i j : Z),
+  0 <= i < j -> spT i <= 253 ->
+  depthZ opT j = depthZ opT i - 1 ->
+  (forall m, i < m < j -> depthZ opT m >= depthZ opT i) ->
+  (forall m, i <= m < j -> finT opT m = false) ->
+  (Z.to_nat (j - i) <= fuel)%nat ->
+  step_out spT opT fuel i = Some j.
+Proof. exact stepout_returns. Qed.
+Print Assumptions C19_stepout_returns.
+
+Theorem C19_stepout_after_call : forall (pcT spT opT : Z -> Z) (fuel : nat) (c i j : Z),
+  frame_call opT c i -> returns_at opT c j -> spT i <= 253 ->
+  (forall m, i <= m < j -> finT opT m = false) ->
+  (Z.to_nat (j - i) <= fuel)%nat ->
+  i < j /\ step_out spT opT fuel i = Some j /\ (returns_to_caller pcT opT -> pcT j = pcT c + 3).
+Proof. exact stepout_after_call. Qed.
+Print Assumptions C19_stepout_after_call.
+
+(* F-C19b, the runner as pinned (`step_out_pinned`: the two bytes above the stack pointer taken as the return address):
+   correct only with a clean stack ... *)
+Theorem C19_stepout_pinned_clean : forall (pcT spT opT retT : Z -> Z) (fuel : nat) (c i j : Z),
   returns_to_caller pcT opT ->
   frame_call opT c i -> returns_at opT c j -> i <= j ->
   Known_stepout_stack_dirty pcT retT c i = false ->
@@ -133,17 +155,18 @@ Theorem C19_stepout_clean : forall (pcT spT opT retT : Z -> Z) (fuel : nat) (c i
   (forall k, i <= k < j -> pcT k <> pcT c + 3) ->
   (forall k, i <= k < j -> finT opT k = false) ->
   (S (Z.to_nat (j - i)) <= fuel)%nat ->
-  step_out pcT spT opT retT fuel i = Some j.
-Proof. exact stepout_clean. Qed.
-Print Assumptions C19_stepout_clean.
+  step_out_pinned pcT spT opT retT fuel i = Some j.
+Proof. exact stepout_pinned_clean. Qed.
+Print Assumptions C19_stepout_pinned_clean.
 
-(* F-C19b (class Known_stepout_stack_dirty): `pha ... stepOut`.  On the run of corpus/C19/stepout_after_pha.asm, stopped on
-   the `nop` after the `pha` (index 4, frame of the call at index 2, which returns at index 7), step_out takes
-   1 + A + 256 * (low byte of the return address) = $0608 for the return address and runs to the test's brk (index 8). *)
+(* ... and wrong after `pha`: on the run of corpus/C19/stepout_after_pha.asm, stopped on the `nop` after the `pha` (index 4,
+   frame of the call at index 2, which returns at index 7), the pinned step_out took 1 + A + 256 * (low byte of the
+   return address) = $0608 for the return address and ran to the test's brk (index 8); the repaired one lands on 7. *)
 Theorem C19_stepout_dirty_refuted :
   frame_call w_op 2 4 /\ returns_at w_op 2 7 /\ w_pc 7 = w_pc 2 + 3 /\
   Known_stepout_stack_dirty w_pc w_ret 2 4 = true /\
-  step_out w_pc w_sp w_op w_ret 100 4 = Some 8.
+  step_out_pinned w_pc w_sp w_op w_ret 100 4 = Some 8 /\
+  step_out w_sp w_op 100 4 = Some 7.
 Proof. exact stepout_dirty_refuted. Qed.
 Print Assumptions C19_stepout_dirty_refuted.
 
